@@ -209,6 +209,7 @@ func init() {
 		ReplayUnit:  "TestC12Replay",
 		Units: []Unit{
 			{Name: "TestC12", Kind: "e2e", Checks: [2]int{4, 50}, Workers: [2]int{3, 8}},
+			{Name: "TestC12TestVariant", Kind: "e2e", Checks: [2]int{2, 8}, Workers: [2]int{1, 3}},
 		},
 	}
 }
